@@ -85,7 +85,7 @@ def _prune_cache(keep):
     try:
         ents = [e for e in os.listdir(CACHE) if e.startswith("facts-") and e != keep]
         ents.sort(key=lambda e: os.path.getmtime(os.path.join(CACHE, e)))
-        for e in ents[:-6]:
+        for e in ents[:-10]:
             shutil.rmtree(os.path.join(CACHE, e), ignore_errors=True)
     except OSError:
         pass
@@ -147,6 +147,10 @@ def extract(config, repo=None, force=False):
                 raise Inconclusive("driver did not write %s (stale cargo cache?)\n%s" % (out, r.stdout[-2000:]))
             _prune_cache("facts-" + key)
         fcntl.flock(lk, fcntl.LOCK_UN)
+    try:
+        os.utime(d, None)      # LRU: a tree that is still being used is not pruned
+    except OSError:
+        pass
     with open(out) as fh:
         facts = json.load(fh)
     if facts.get("config") != config:
